@@ -9,6 +9,7 @@ import time
 import bv  # noqa: F401
 from bv.engine import vclock
 from bv.engine.acc import Acc
+from bv.engine.ctlnet import run_quiet as ctlnet_run_quiet
 from bv.engine.pool import run_shards, chunks, HarnessError
 from bv.refs import ssmwire, segmon
 from bv.stacks import app as A
@@ -565,6 +566,241 @@ def shard_identity(item, deadline):
     return acc
 
 
+
+# ----------------------------------------------------------------------------- part S: a scripted server with its own windows
+
+def _iam_octets(dev, maxapdu, seg):
+    oid = (8 << 22) | dev
+    return bytes([0x01, 0x00, 0x10, 0x00, 0xC4]) + oid.to_bytes(4, "big") + bytes([0x22, maxapdu >> 8, maxapdu & 0xFF, 0x91, seg, 0x22, 0x03, 0xE7])
+
+
+def server_script_case(wc, wg, wr, final_ack, resp_segs, req_segs=4):
+    """The real client stack (proposes window wc) sends a request of req_segs segments to a raw scripted server that
+    grants min(wc, wg) per SegmentACK, then answers with a response of resp_segs segments proposing window wr; final_ack
+    False: the SegmentACK for the last request segment is lost (the response follows at once).  The client may send at most
+    the granted number of request segments per ack, and every SegmentACK it sends for the response must carry a window in
+    1..127 that does not exceed wr.  Returns (problems, facts)."""
+    from bacpypes.pdu import PDU, LocalBroadcast
+    from bacpypes.vlan import Network
+    from bv.engine.ctlnet import Wire, CtlNetwork
+    from bv.stacks.appsys import _device, side
+    from bv.props.c05 import rq
+    vclock.reset(0.0)
+    wire = Wire()
+    net = CtlNetwork(wire, "lan")
+    client = A.PlainApp(_device("client", 1, side(window=wc, retries=1)), 1, net, window=wc)
+    vclock.settle()
+    problems = []
+
+    def send(octets, dest=None):
+        pdu = PDU(octets, source=Address(2), destination=dest or Address(1))
+        try:
+            Network.process_pdu(net, pdu)
+        except Exception as err:
+            problems.append(("scripted-server:delivery-raised:%s" % type(err).__name__, {"error": str(err)[:120]}))
+        vclock.settle()
+
+    def take():
+        out = []
+        while wire.inflight:
+            fr = wire.drop(0)
+            try:
+                n, a = ssmwire.parse_frame(fr.data)
+            except ssmwire.WireError:
+                continue
+            if a is not None and str(fr.dst) == "2":
+                out.append(a)
+        return out
+
+    send(_iam_octets(2, 50, 0), LocalBroadcast())
+    take()
+    try:
+        client.submit(Address(2), rq(req_segs))
+    except Exception as err:
+        return [("submitting-the-request-raised:%s" % type(err).__name__, {"error": str(err)[:120]})], {}
+    vclock.settle()
+    got = take()
+    segs = [a for a in got if a["type"] == 0 and a["seg"]]
+    if len(segs) != 1 or segs[0]["seq"] != 0:
+        return [("scripted-server:first-burst-is-not-request-segment-0", {"got": [(a["name"], a["seq"]) for a in got]})], {}
+    invoke = segs[0]["invoke"]
+    proposed = segs[0]["win"]
+    granted = max(1, min(proposed, wg))
+    last, more, guard, bursts = 0, segs[0]["mor"], 0, []
+    while more and guard < 50:
+        guard += 1
+        send(bytes([0x01, 0x00, 0x41, invoke, last % 256, granted]))
+        data = [a for a in take() if a["type"] == 0 and a["seg"]]
+        bursts.append(len(data))
+        if not data:
+            break
+        if len(data) > granted:
+            problems.append(("more-request-segments-after-an-ack-than-its-window-allows",
+                             {"granted": granted, "segments_sent": len(data), "sequence": [a["seq"] for a in data]}))
+        for a in data:
+            if a["seq"] == (last + 1) % 256:
+                last += 1
+                more = a["mor"]
+    if more:
+        return problems + [("scripted-server:request-did-not-complete", {"bursts": bursts})], {"bursts": bursts}
+    if final_ack:
+        send(bytes([0x01, 0x00, 0x41, invoke, last % 256, granted]))
+        take()
+    # the response: resp_segs segments of 40 octets of service data each, proposing window wr
+    body = segmon.private_transfer_data(1, bytes(40 * resp_segs - 8))
+    chunks_ = [body[i:i + 40] for i in range(0, len(body), 40)]
+    acks = []
+    k = 0
+    guard = 0
+    resent = 0
+    while k < len(chunks_) and guard < 50:
+        guard += 1
+        burst_end = min(len(chunks_), k + (1 if k == 0 else max(1, min(wr, acks[-1]["win"] if acks else wr))))
+        for j in range(k, burst_end):
+            mor = j < len(chunks_) - 1
+            send(bytes([0x01, 0x04 if False else 0x00, 0x38 | (0x04 if mor else 0), invoke, j % 256, wr, 18]) + chunks_[j])
+        new = [a for a in take() if a["type"] == 4]
+        if not new and resent < 2:
+            # no acknowledgement: the server's segment timer (2 s) expires and it sends the burst again
+            resent += 1
+            vclock.run_until(vclock.clock.now + 2.0)
+            new = [a for a in take() if a["type"] == 4]
+            if not new:
+                continue
+        for a in new:
+            acks.append(a)
+            if not (1 <= a["win"] <= 127):
+                problems.append(("response-ack-window-outside-1..127", {"win": a["win"]}))
+            elif a["win"] > wr:
+                problems.append(("response-ack-window-exceeds-what-the-server-proposed",
+                                 {"ack_window": a["win"], "server_proposed": wr, "granted_for_the_request": granted,
+                                  "client_proposed": proposed, "final_request_ack": "delivered" if final_ack else "lost"}))
+        if any(a["type"] == 7 for a in new) or not new:
+            break
+        k = (new[-1]["seq"] + 1) if new[-1]["seq"] < burst_end else burst_end
+    outcome = [(c[1], len(c[4]) if isinstance(c[4], bytes) else c[4]) for c in client.confirmations]
+    return problems, {"client_proposed": proposed, "granted": granted, "server_proposed": wr, "final_ack": final_ack,
+                      "request_bursts": bursts, "response_acks": [(a["seq"], a["win"]) for a in acks], "outcome": outcome}
+
+
+def server_script_cases(tier):
+    ws = (1, 2, 3, 8)
+    for wc in ((2, 8) if tier == "quick" else (1, 2, 5, 8, 127)):
+        for wg in ws:
+            for wr in ws:
+                for final_ack in (True, False):
+                    for resp_segs in (2, 5):
+                        yield (wc, wg, wr, final_ack, resp_segs)
+
+
+def shard_server_script(item, deadline):
+    acc = Acc()
+    for c in item:
+        problems, facts = server_script_case(*c)
+        acc.case(("S", c))
+        acc.traces += 1
+        acc.transitions += len(facts.get("request_bursts", ())) + len(facts.get("response_acks", ())) + 1
+        acc.outcome("S:%s" % (facts.get("outcome") and facts["outcome"][0][0]))
+        acc.state(("S", repr(facts.get("request_bursts")), repr(facts.get("response_acks"))))
+        for prob, detail in problems:
+            acc.fail("cap:scripted-server:%s" % prob, {"problem": prob, "detail": detail, "facts": facts}, {"server_script": list(c)})
+    return acc
+
+
+# ----------------------------------------------------------------------------- part R: both devices ask each other
+
+def reversal_case(history, y_seg):
+    """Two real stacks X (station 1, can do everything) and Y (station 2, segmentation support y_seg, max APDU 50).
+    history: events "iam" (Y announces itself), "y-short", "y-long" (Y asks X; long = needs segments), "x-short", "x-long"
+    (X asks Y).  Whatever Y has asked before, what X sends to Y respects what Y *announced*: no APDU over 50 octets, and
+    segments only if Y can receive them; a request that does not fit ends in an abort.  Returns (problems, facts)."""
+    from bacpypes.pdu import LocalBroadcast
+    from bv.engine.ctlnet import Wire, CtlNetwork
+    from bv.stacks.appsys import _device, side
+    from bv.props.c05 import rq
+    vclock.reset(0.0)
+    wire = Wire()
+    wire.auto = True
+    net = CtlNetwork(wire, "lan")
+    x = A.PlainApp(_device("x", 1, side(maxapdu=50, retries=0)), 1, net)
+    y = A.PlainApp(_device("y", 2, side(maxapdu=50, seg=y_seg, retries=0)), 2, net)
+    vclock.settle()
+    problems = []
+    announced = False
+    can_receive = y_seg in ("segmentedBoth", "segmentedReceive")
+    facts = []
+    sn = 0
+    for ev in history:
+        n0 = len(wire.log)
+        c0 = len(x.confirmations)
+        if ev == "iam":
+            from bacpypes.apdu import IAmRequest
+            iam = IAmRequest(iAmDeviceIdentifier=y.localDevice.objectIdentifier, maxAPDULengthAccepted=50,
+                             segmentationSupported=y_seg, vendorID=999)
+            iam.pduDestination = LocalBroadcast()
+            y.request(iam)
+            announced = True
+        else:
+            who, size = ev.split("-")
+            src, dst = (x, 2) if who == "x" else (y, 1)
+            sn += 1
+            try:
+                src.submit(Address(dst), rq(3) if size == "long" else 0, service_number=sn)
+            except Exception as err:
+                problems.append(("submitting-the-request-raised:%s" % type(err).__name__, {"event": ev, "error": str(err)[:120]}))
+        try:
+            ctlnet_run_quiet(wire, vclock.clock.now + 60.0)
+        except vclock.Livelock as err:
+            problems.append(("livelock", {"event": ev}))
+            break
+        sent = []
+        for (t, netname, s_, d_, data) in wire.log[n0:]:
+            try:
+                n, a = ssmwire.parse_frame(data)
+            except ssmwire.WireError:
+                continue
+            if a is not None and s_ == "1" and d_ == "2":
+                sent.append(a)
+        outcome = [(c[1], c[4] if not isinstance(c[4], bytes) else len(c[4])) for c in x.confirmations[c0:]]
+        facts.append((ev, [(a["name"], a["length"], bool(a.get("seg"))) for a in sent], outcome))
+        if announced:
+            for a in sent:
+                if a["length"] > 50:
+                    problems.append(("apdu-to-the-peer-longer-than-it-announced", {"event": ev, "length": a["length"], "type": a["name"]}))
+                if a["type"] == 0 and a["seg"] and not can_receive:
+                    problems.append(("segmented-request-to-a-peer-that-announced-it-cannot-receive-segments",
+                                     {"event": ev, "announced": y_seg, "history": list(history)}))
+            if ev == "x-long" and not can_receive and not any(o[0] == "abort" for o in outcome):
+                problems.append(("request-does-not-fit-the-peer-but-no-abort", {"event": ev, "outcome": outcome}))
+        if ev == "x-short" and not any(o[0] == "ack" for o in outcome):
+            problems.append(("short-request-not-answered", {"event": ev, "outcome": outcome}))
+    return problems, {"history": list(history), "y_segmentation": y_seg, "steps": facts}
+
+
+def reversal_cases(tier):
+    import itertools as it
+    evs = ("iam", "y-short", "y-long", "x-short", "x-long")
+    for y_seg in ("segmentedBoth", "segmentedTransmit", "segmentedReceive", "noSegmentation"):
+        for n in ((1, 2, 3) if tier == "quick" else (1, 2, 3, 4)):
+            for h in it.product(evs, repeat=n):
+                if any(e.startswith("x-") for e in h):
+                    yield (h, y_seg)
+
+
+def shard_reversal(item, deadline):
+    acc = Acc()
+    for (h, y_seg) in item:
+        problems, facts = reversal_case(h, y_seg)
+        acc.case(("R", h, y_seg))
+        acc.traces += 1
+        acc.transitions += len(h)
+        acc.outcome("R:%s" % ",".join("%s" % (st[2][0][0] if st[2] else "-") for st in facts["steps"]))
+        acc.state(("R", y_seg, repr(facts["steps"])))
+        for prob, detail in problems:
+            acc.fail("cap:reversal:%s" % prob, {"problem": prob, "detail": detail, "facts": facts}, {"reversal_history": list(h), "y_seg": y_seg})
+    return acc
+
+
 def run(tier, seed, deadline):
     vclock.install()
     acc = Acc()
@@ -586,6 +822,12 @@ def run(tier, seed, deadline):
     ic = list(identity_cases(tier))
     run_shards(shard_identity, chunks(ic, 32), deadline, into=acc)
     acc.info["identity histories"] = len(ic)
+    sc = list(server_script_cases(tier))
+    run_shards(shard_server_script, chunks(sc, 16), deadline, into=acc)
+    acc.info["scripted-server cases"] = len(sc)
+    rc = list(reversal_cases(tier))
+    run_shards(shard_reversal, chunks(rc, 32), deadline, into=acc)
+    acc.info["role-reversal histories"] = len(rc)
     s = run_execution(Cfg.from_json(cs[7]), ())[0]
     acc.sample({"cfg": s.cfg.describe(), "wire": [(frame_label(f[4]), len(f[4]) - 2) for f in s.wire.log],
                 "outcome": [(c[1], c[4] if not isinstance(c[4], bytes) else len(c[4])) for c in s.client.confirmations]})
@@ -597,6 +839,13 @@ def replay(case):
     if "window_schedule" in case:
         problems, facts = window_case(tuple(case["window_schedule"]))
         return not problems, "scripted client, window schedule %r -> %r\n%r" % (case["window_schedule"], problems[:3], facts)
+    if "server_script" in case:
+        problems, facts = server_script_case(*case["server_script"])
+        return not problems, "scripted server (client window, granted, proposed for the response, final ack, response segments) %r -> %r\n%r" % (
+            case["server_script"], problems[:3], facts)
+    if "reversal_history" in case:
+        problems, facts = reversal_case(tuple(case["reversal_history"]), case["y_seg"])
+        return not problems, "history %r, Y is %s -> %r\n%r" % (case["reversal_history"], case["y_seg"], problems[:3], facts)
     if "identity_history" in case:
         problems, facts = identity_case(tuple(tuple(x) for x in case["identity_history"]))
         return not problems, "I-Am history %r -> %r\n%r" % (case["identity_history"], problems[:3], facts)
